@@ -1008,3 +1008,198 @@ Proof.
   - intros j Hj Hn. apply attest_run_sound in Hj as [Hj|(a & e & Ha & He & -> & _)]; [contradiction|].
     apply elig_some_iff in He as (F & C & A & B). exists a, e. auto 10.
 Qed.
+
+(* =========================================================================================== *)
+(* Part 7.  From the duties to the jobs; the controller's history.                             *)
+
+Lemma selected_committee_gets_job : forall pr ok ds cur acct_ok jobs atts a d,
+  consistent_duties ds -> digests_ok ds -> NoDup (map jkey jobs) ->
+  In a atts -> cur <= a_slot a ->
+  duty_for ok ds (a_slot a) (a_comm a) d -> selected (agg_target pr) d = true ->
+  (forall d', duty_for ok ds (a_slot a) (a_comm a) d' -> selected (agg_target pr) d' = true ->
+              acct_ok (d_val d') = true) ->
+  let jobs' := attest_run pr (subscription_info (agg_target pr) ok ds) cur acct_ok jobs atts in
+  exists j, In j jobs' /\ jkey j = akey a /\
+    (forall j', In j' jobs' -> jkey j' = akey a -> j' = j) /\
+    (~ In (akey a) (map jkey jobs) ->
+       j_time j = a_slot a * slot_ms pr + delay_ms pr /\ j_dslot j = a_slot a /\
+       (exists d', duty_for ok ds (a_slot a) (a_comm a) d' /\ selected (agg_target pr) d' = true /\
+                   j_val j = d_val d' /\ j_sig j = d_sig d') /\
+       exists a', In a' atts /\ akey a' = akey a /\ j_root j = a_root a').
+Proof.
+  intros pr ok ds cur acct_ok jobs atts a d C G ND Ha Hc Hd Hs Hacct jobs'.
+  assert (Hagg : agg_of (agg_target pr) (sort_duties ds) d = true).
+  { rewrite agg_of_selected; [exact Hs|exact C|exact G|apply Hd]. }
+  destruct (recorded_aggregator _ ok ds _ _ d Hd Hagg) as (e & d' & F & A & Hd' & He & Ha').
+  assert (Hs' : selected (agg_target pr) d' = true).
+  { rewrite <- agg_of_selected with (ds := ds); [exact Ha'|exact C|exact G|apply Hd']. }
+  destruct (attest_run_main pr (subscription_info (agg_target pr) ok ds) cur acct_ok jobs atts ND)
+    as (_ & _ & H3 & _).
+  destruct (H3 a e Ha F A Hc) as (j & Hj & Kj & Hu & Hnew).
+  { rewrite He. cbn [mk_sub s_val]. apply Hacct; assumption. }
+  exists j. split; [exact Hj|]. split; [exact Kj|]. split; [exact Hu|].
+  intro Hn. destruct (Hnew Hn) as (T & Ds & V & Sg & R).
+  split; [exact T|]. split; [exact Ds|]. split; [|exact R].
+  exists d'. rewrite V, Sg, He. cbn [mk_sub s_val s_sig]. auto.
+Qed.
+
+(* --- the history --- *)
+Lemma get_set_info : forall ep ep' v m,
+  get_info ep (set_info ep' v m) = if ep' =? ep then Some v else get_info ep m.
+Proof.
+  intros ep ep' v m. induction m as [|[k w] m IH]; cbn [set_info get_info].
+  - reflexivity.
+  - destruct (k =? ep') eqn:K; cbn [get_info].
+    + apply N.eqb_eq in K. subst k. destruct (ep' =? ep); reflexivity.
+    + rewrite IH. destruct (ep' =? ep) eqn:E; [|reflexivity].
+      apply N.eqb_eq in E. rewrite <- E, K. reflexivity.
+Qed.
+
+Lemma run_cons : forall pr st o ops,
+  fst (run pr st (o :: ops)) = fst (run pr (fst (step pr st o)) ops).
+Proof.
+  intros. cbn [run]. destruct (step pr st o) as [st1 x]. cbn [fst].
+  destruct (run pr st1 ops) as [st2 xs]. reflexivity.
+Qed.
+
+Lemma step_infos : forall pr st o ep,
+  get_info ep (st_infos (fst (step pr st o))) = last_info pr ep [o] (get_info ep (st_infos st)).
+Proof.
+  intros pr st o ep. destruct o as [ep' cur na df sf ds|dslot cur af na atts]; cbn [step last_info].
+  - destruct na; cbn [fst st_infos].
+    + rewrite get_set_info. reflexivity.
+    + destruct df; cbn [fst st_infos].
+      * destruct (ep' =? ep); reflexivity.
+      * rewrite get_set_info. reflexivity.
+  - destruct af; [reflexivity|]. destruct atts; [reflexivity|].
+    destruct (get_info (dslot / spe pr) (st_infos st)); reflexivity.
+Qed.
+
+Lemma run_infos : forall pr ops st ep,
+  get_info ep (st_infos (fst (run pr st ops))) = last_info pr ep ops (get_info ep (st_infos st)).
+Proof.
+  intros pr ops. induction ops as [|o ops IH]; intros st ep; [reflexivity|].
+  rewrite run_cons, IH, step_infos. destruct o; reflexivity.
+Qed.
+
+Lemma last_info_app : forall pr ep ops1 ops2 acc,
+  last_info pr ep (ops1 ++ ops2) acc = last_info pr ep ops2 (last_info pr ep ops1 acc).
+Proof.
+  intros pr ep ops1. induction ops1 as [|o ops1 IH]; intros ops2 acc; [reflexivity|].
+  destruct o; cbn [app last_info]; apply IH.
+Qed.
+
+(* operations that leave the information of epoch [ep] alone *)
+Definition keeps (ep : N) (o : op) : Prop :=
+  match o with
+  | OSub ep' _ no_accounts duties_fail _ _ => ep' <> ep \/ (no_accounts = false /\ duties_fail = true)
+  | OAtt _ _ _ _ _ => True
+  end.
+
+Lemma last_info_keeps : forall pr ep ops acc, Forall (keeps ep) ops -> last_info pr ep ops acc = acc.
+Proof.
+  intros pr ep ops. induction ops as [|o ops IH]; intros acc F; [reflexivity|].
+  inversion F as [|? ? K F']; subst. destruct o as [ep' cur na df sf ds|]; cbn [last_info].
+  - cbn [keeps] in K. rewrite IH by exact F'. destruct (N.eqb_spec ep' ep) as [E|E]; [|reflexivity].
+    destruct K as [K|[-> ->]]; [contradiction|reflexivity].
+  - apply IH. exact F'.
+Qed.
+
+(* jobs: one step never loses a job, keeps the names distinct and the times right *)
+Definition job_wf (pr : params) (j : job) : Prop :=
+  j_time j = j_slot j * slot_ms pr + delay_ms pr /\ j_dslot j = j_slot j.
+
+Definition jobs_inv (pr : params) (jobs : list job) : Prop :=
+  NoDup (map jkey jobs) /\ Forall (job_wf pr) jobs.
+
+Lemma attest_run_inv : forall pr info cur acct_ok jobs atts,
+  jobs_inv pr jobs -> jobs_inv pr (attest_run pr info cur acct_ok jobs atts).
+Proof.
+  intros pr info cur acct_ok jobs atts [ND W]. split; [apply attest_run_nodup; exact ND|].
+  rewrite Forall_forall in *. intros j Hj.
+  apply attest_run_sound in Hj as [Hj|(a & e & _ & He & -> & _)]; [apply W; exact Hj|].
+  apply elig_some_iff in He as (F & _). apply find_sub_some in F as (_ & Hs & _).
+  unfold job_wf. cbn [mk_job j_time j_slot j_dslot]. auto.
+Qed.
+
+Lemma step_jobs : forall pr st o,
+  (exists new, st_jobs (fst (step pr st o)) = st_jobs st ++ new) /\
+  (jobs_inv pr (st_jobs st) -> jobs_inv pr (st_jobs (fst (step pr st o)))).
+Proof.
+  intros pr st o.
+  assert (Same : (exists new, st_jobs st = st_jobs st ++ new)) by (exists []; rewrite app_nil_r; reflexivity).
+  destruct o as [ep' cur na df sf ds|dslot cur af na atts]; cbn [step].
+  - destruct na; [cbn [fst st_jobs]; auto|]. destruct df; cbn [fst st_jobs]; auto.
+  - destruct af; [auto|]. destruct atts as [|a atts]; [auto|].
+    destruct (get_info (dslot / spe pr) (st_infos st)) as [info|]; [|auto].
+    cbn [fst st_jobs]. split; [apply attest_run_prefix|apply attest_run_inv].
+Qed.
+
+Lemma run_jobs : forall pr ops st,
+  (exists new, st_jobs (fst (run pr st ops)) = st_jobs st ++ new) /\
+  (jobs_inv pr (st_jobs st) -> jobs_inv pr (st_jobs (fst (run pr st ops)))).
+Proof.
+  intros pr ops. induction ops as [|o ops IH]; intro st.
+  - cbn [run fst]. split; [exists []; rewrite app_nil_r; reflexivity|auto].
+  - rewrite run_cons. destruct (step_jobs pr st o) as [[n1 E1] I1].
+    destruct (IH (fst (step pr st o))) as [[n2 E2] I2]. split.
+    + exists (n1 ++ n2). rewrite E2, E1, app_assoc. reflexivity.
+    + intro I. apply I2, I1, I.
+Qed.
+
+Lemma init_inv : forall pr, jobs_inv pr (st_jobs init).
+Proof. intro pr. split; constructor. Qed.
+
+(* what one attest operation does in a reachable state *)
+Lemma step_att : forall pr st dslot cur no_acct a atts info,
+  get_info (dslot / spe pr) (st_infos st) = Some info ->
+  step pr st (OAtt dslot cur false no_acct (a :: atts)) =
+  (let jobs := attest_run pr info cur (acct_ok_of no_acct) (st_jobs st) (a :: atts) in
+   ({| st_infos := st_infos st; st_jobs := jobs |}, OutAtt jobs)).
+Proof. intros pr st dslot cur no_acct a atts info H. cbn [step]. rewrite H. reflexivity. Qed.
+
+(* The whole statement over a history: some operations, a subscribe of the epoch, operations that
+   leave that epoch's information alone, then an attest of a slot of the epoch. *)
+Lemma history_selected_committee_gets_job :
+  forall pr ops1 ep cur1 sign_fail ds ops2 dslot cur no_acct atts a d,
+    Forall (keeps ep) ops2 -> dslot / spe pr = ep ->
+    consistent_duties ds -> digests_ok ds ->
+    In a atts -> cur <= a_slot a ->
+    duty_for (sign_ok_of sign_fail) ds (a_slot a) (a_comm a) d -> selected (agg_target pr) d = true ->
+    (forall d', duty_for (sign_ok_of sign_fail) ds (a_slot a) (a_comm a) d' ->
+                selected (agg_target pr) d' = true -> acct_ok_of no_acct (d_val d') = true) ->
+    let st := fst (run pr init (ops1 ++ OSub ep cur1 false false sign_fail ds :: ops2)) in
+    let r := step pr st (OAtt dslot cur false no_acct atts) in
+    snd r = OutAtt (st_jobs (fst r)) /\
+    (forall j, In j (st_jobs st) -> In j (st_jobs (fst r))) /\
+    exists j, In j (st_jobs (fst r)) /\ jkey j = akey a /\
+      (forall j', In j' (st_jobs (fst r)) -> jkey j' = akey a -> j' = j) /\
+      j_time j = a_slot a * slot_ms pr + delay_ms pr /\ j_dslot j = a_slot a /\
+      (~ In (akey a) (map jkey (st_jobs st)) ->
+         (exists d', duty_for (sign_ok_of sign_fail) ds (a_slot a) (a_comm a) d' /\
+                     selected (agg_target pr) d' = true /\ j_val j = d_val d' /\ j_sig j = d_sig d') /\
+         exists a', In a' atts /\ akey a' = akey a /\ j_root j = a_root a').
+Proof.
+  intros pr ops1 ep cur1 sign_fail ds ops2 dslot cur no_acct atts a d K E C G Ha Hc Hd Hs Hacct st r.
+  assert (I : get_info (dslot / spe pr) (st_infos st) =
+              Some (subscription_info (agg_target pr) (sign_ok_of sign_fail) ds)).
+  { unfold st. rewrite run_infos, last_info_app. cbn [last_info]. rewrite E, N.eqb_refl.
+    apply last_info_keeps. exact K. }
+  assert (Inv : jobs_inv pr (st_jobs st)) by (apply run_jobs, init_inv).
+  destruct atts as [|a0 atts]; [destruct Ha|].
+  unfold r. rewrite (step_att _ _ _ _ _ _ _ _ I). cbn [fst snd st_jobs].
+  split; [reflexivity|]. split.
+  - intros j Hj. destruct (attest_run_prefix pr (subscription_info (agg_target pr) (sign_ok_of sign_fail) ds)
+      cur (acct_ok_of no_acct) (a0 :: atts) (st_jobs st)) as [n En]. rewrite En. apply in_or_app. left. exact Hj.
+  - destruct Inv as [ND W].
+    destruct (selected_committee_gets_job pr (sign_ok_of sign_fail) ds cur (acct_ok_of no_acct)
+                (st_jobs st) (a0 :: atts) a d C G ND Ha Hc Hd Hs Hacct) as (j & Hj & Kj & Hu & Hnew).
+    exists j. split; [exact Hj|]. split; [exact Kj|]. split; [exact Hu|].
+    assert (Wj : job_wf pr j).
+    { pose proof (attest_run_inv pr (subscription_info (agg_target pr) (sign_ok_of sign_fail) ds)
+        cur (acct_ok_of no_acct) (st_jobs st) (a0 :: atts) (conj ND W)) as [_ W'].
+      rewrite Forall_forall in W'. apply W'. exact Hj. }
+    destruct Wj as [T Dl]. unfold jkey, akey in Kj. injection Kj as K1 K2.
+    rewrite K1 in T, Dl. split; [exact T|]. split; [exact Dl|].
+    intro Hn. destruct (Hnew Hn) as (_ & _ & P & R). split; assumption.
+Qed.
